@@ -50,7 +50,7 @@ Proof.
   match goal with |- context [build_iife_elems lft r ?s2] =>
     specialize (IH s2); pose proof (grow_build_iife_elems lft r s2) as G;
     destruct (build_iife_elems lft r s2) as [r' s3] eqn:EB end.
-  cbn [snd] in G. destruct G as (_ & _ & [l GC] & _).
+  cbn [snd] in G. destruct G as (_ & _ & [l [GC _]] & _).
   constructor; [|exact IH].
   right. unfold fresh_ident in EF. injection EF as <- <- <-.
   do 4 eexists. split; [reflexivity|]. split; [reflexivity|].
